@@ -107,6 +107,19 @@ func runUnitB(u unitB, expired func() bool) (mis []misB, sb statsB) {
 					ts := tm(h)
 					if fl == 1 {
 						ts = tm(u.F) + 4*step*int64(j+1)
+						if j == 0 {
+							// the first block of the fast arm is stamped as early as
+							// allowed (MTP of the fork point + 1): where the window
+							// parity lets it, it and its sibling on arm A (same
+							// parent) have different median times
+							pre := make([]int64, 0, u.F+2)
+							for h := 0; h <= u.F; h++ {
+								pre = append(pre, tm(h))
+							}
+							if early := mtpOf(pre) + 1; checkSchedule(append(pre, early)) == nil {
+								ts = early
+							}
+						}
 					}
 					id = t.add(n, vote(bit), ts, uint32(fl))
 					trie[key] = id
@@ -161,6 +174,7 @@ func runUnitB(u unitB, expired func() bool) (mis []misB, sb statsB) {
 		bndH--
 	}
 
+	bestTip := 0
 	mkCase := func(q [5]int, order []int, upto int, slot int, op string) *Case {
 		// the whole (small) tree: prefix + both arms
 		c := &Case{Sub: "fork-query-order", Window: W, Threshold: u.Thr, GenesisTime: T0, SlotBits: slotBitsInt(), Defs: u.Defs}
@@ -176,6 +190,10 @@ func runUnitB(u unitB, expired func() bool) (mis []misB, sb statsB) {
 		}
 		addPath(q[0])
 		addPath(q[1])
+		if bestTip > 1 {
+			bt := local[bestTip]
+			c.BestTip = &bt
+		}
 		for i := 0; i <= upto; i++ {
 			n := q[order[i]]
 			last := nSlots - 1
@@ -288,7 +306,15 @@ func runUnitB(u unitB, expired func() bool) (mis []misB, sb statsB) {
 						order = order[:len(order)-1]
 					}
 				}
-				walk(t.view(u.Defs, u.Thr, 0), 0)
+				// the active-chain view is positioned on one of the arms (alternating):
+				// which chain is active must not influence any answer
+				bestTip = tipA
+				if (a+b+fb)%2 == 1 {
+					bestTip = tipB
+				}
+				root := t.view(u.Defs, u.Thr, 0)
+				root.VerifC14SetTip(t.nodes[bestTip])
+				walk(root, 0)
 			}
 		}
 		if expired() {
